@@ -572,6 +572,11 @@ func (nw *c11Net) apply(f []string) string {
 		m := nw.nodes[a].mgr
 		n := m.CleanupStaleRoutes(maxAge) + m.CleanupStaleDomainRoutes(maxAge) + m.CleanupStaleForwardRoutes(maxAge) + m.CleanupStaleAgentRoutes(maxAge)
 		return out(fmt.Sprintf("removed:%d", n), nodeS(a))
+	case "walk":
+		if fn := c11ExtraOps["walk"]; fn != nil {
+			return fn(f)
+		}
+		return "r=bad"
 	case "race":
 		k, rounds := arg(1), arg(2)
 		if k < 2 || k > 16 || rounds < 1 || rounds > 5000 {
@@ -656,6 +661,10 @@ func c11Race(k, rounds int) string {
 	}
 	return fmt.Sprintf("r=race accepted=%d fwd=%d", maxAcc, maxFwd)
 }
+
+// c11ExtraOps: stateless ops contributed by other files of this package (own build tags), e.g. the
+// STREAM_OPEN walk of eng_c12w.go. They still take one logical tick.
+var c11ExtraOps = map[string]func(f []string) string{}
 
 func c11Reset(f []string) (*c11Net, string) {
 	if len(f) < 3 {
@@ -814,6 +823,26 @@ func c11GenProfile(w *bufio.Writer, seed int64, tier string, prof string) {
 	if tier == "thorough" {
 		cases, maxN, steps = 1800, 7, 70
 	}
+	if prof == "c12" {
+		// learned routes at distance exactly max_hops and max_hops-1, for max_hops 1..4 (always), a few
+		// longer ones: a stream opened along the recorded path must reach the advertising agent
+		fmt.Fprintln(w, "reset 1 0 _")
+		for mh := 1; mh <= 4; mh++ {
+			for _, l := range []int{mh, mh - 1} {
+				if l < 1 {
+					continue
+				}
+				var p []string
+				for i := 1; i <= l; i++ {
+					p = append(p, strconv.Itoa(i))
+				}
+				fmt.Fprintf(w, "walk %d 0 %s\n", mh, strings.Join(p, "-"))
+			}
+		}
+		fmt.Fprintln(w, "walk 16 0 1-2-3-4-5-6-7-8-9-10-11-12-13-14-15-16")
+		fmt.Fprintln(w, "walk 8 3 2-5-0-7-1-4-6")
+		fmt.Fprintln(w, "walk 0 0 4-3-2-1")
+	}
 	for c := 0; c < cases; c++ {
 		n := 2 + r.intn(maxN-1)
 		if r.chance(50) && n > 4 {
@@ -845,6 +874,19 @@ func c11GenProfile(w *bufio.Writer, seed int64, tier string, prof string) {
 			if r.chance(12) {
 				c11GenReroute(w, r)
 				continue
+			}
+			g.walk = r.chance(30)
+			if tier == "thorough" {
+				g.walk = r.chance(5)
+			}
+			chainPct := 12
+			if tier == "thorough" {
+				chainPct = 4
+			}
+			if r.chance(chainPct) { // chains exactly as long as the hop limit and one longer
+				g.mh = r.pick(1, 2, 3, 4)
+				g.n = g.mh + 1 + r.intn(2)
+				g.topo, g.walk = 0, true
 			}
 			if r.chance(45) {
 				g.clean = true
@@ -965,6 +1007,7 @@ type c11CaseCfg struct {
 	clean               bool // convergence case: see convergeChecks in MM/Model/C11Wire.lean
 	big                 int  // > 0: agent 0 has that many CIDR routes
 	late                bool // clean case: one more link comes up (with table replays) half-way
+	walk                bool // end the case with STREAM_OPEN walks along learned routes (engine c12)
 }
 
 func c11GenCase(w *bufio.Writer, r *rng, g c11CaseCfg) {
@@ -1116,6 +1159,25 @@ func c11GenCase(w *bufio.Writer, r *rng, g c11CaseCfg) {
 	}
 	if r.chance(2) {
 		emit("race %d %d", 2+r.intn(5), 150)
+	}
+	if g.walk {
+		// open a stream along up to two learned routes of this case (prefer the longest paths)
+		type cand struct {
+			x    int
+			path []int
+		}
+		var cs []cand
+		for x := 0; x < n; x++ {
+			for _, e := range nw.entries(x) {
+				if len(e.path) > 0 && len(e.path) <= 8 && (g.mh == 0 || len(e.path) <= g.mh) && e.path[len(e.path)-1] == e.origin {
+					cs = append(cs, cand{x, e.path})
+				}
+			}
+		}
+		sort.SliceStable(cs, func(a, b int) bool { return len(cs[a].path) > len(cs[b].path) })
+		for i := 0; i < len(cs) && i < 2; i++ {
+			emit("walk %d %d %s", g.mh, cs[i].x, c11PathStr(cs[i].path))
+		}
 	}
 	if g.clean && drained {
 		emit("dump converged")
